@@ -28,9 +28,9 @@ def matches_offer(self, entry):
         raise ValueError("entry is no OfferService")
     return (
         self.service_id == entry.service_id
-        and wc(self.instance_id, entry.instance_id, W_INSTANCE)
-        and wc(self.major_version, entry.major_version, W_MAJOR)
-        and wc(self.minor_version, entry.minver_or_counter, W_MINOR)
+        and (self.instance_id == W_INSTANCE or self.instance_id == entry.instance_id)
+        and (self.major_version == W_MAJOR or self.major_version == entry.major_version)
+        and (self.minor_version == W_MINOR or self.minor_version == entry.minver_or_counter)
     )
 
 
@@ -39,9 +39,9 @@ def matches_find(self, entry):
         raise ValueError("entry is no FindService")
     return (
         self.service_id == entry.service_id
-        and wc(entry.instance_id, self.instance_id, W_INSTANCE)
-        and wc(entry.major_version, self.major_version, W_MAJOR)
-        and wc(entry.minver_or_counter, self.minor_version, W_MINOR)
+        and (entry.instance_id == W_INSTANCE or entry.instance_id == self.instance_id)
+        and (entry.major_version == W_MAJOR or entry.major_version == self.major_version)
+        and (entry.minver_or_counter == W_MINOR or entry.minver_or_counter == self.minor_version)
     )
 
 
@@ -50,8 +50,8 @@ def matches_subscribe(self, entry):
         raise ValueError("entry is no Subscribe")
     return (
         self.service_id == entry.service_id
-        and wc(self.instance_id, entry.instance_id, W_INSTANCE)
-        and wc(self.major_version, entry.major_version, W_MAJOR)
+        and (self.instance_id == W_INSTANCE or self.instance_id == entry.instance_id)
+        and (self.major_version == W_MAJOR or self.major_version == entry.major_version)
         and (entry.minver_or_counter & 0xFFFF) in self.eventgroups
     )
 
@@ -59,9 +59,9 @@ def matches_subscribe(self, entry):
 def matches_service(self, other):
     return (
         self.service_id == other.service_id
-        and wc2(self.instance_id, other.instance_id, W_INSTANCE)
-        and wc2(self.major_version, other.major_version, W_MAJOR)
-        and wc2(self.minor_version, other.minor_version, W_MINOR)
+        and (self.instance_id == W_INSTANCE or other.instance_id == W_INSTANCE or self.instance_id == other.instance_id)
+        and (self.major_version == W_MAJOR or other.major_version == W_MAJOR or self.major_version == other.major_version)
+        and (self.minor_version == W_MINOR or other.minor_version == W_MINOR or self.minor_version == other.minor_version)
     )
 
 
@@ -111,8 +111,8 @@ def as_service(self):
 def for_service(self, service):
     accepts = (
         self.service_id == service.service_id
-        and wc(self.instance_id, service.instance_id, W_INSTANCE)
-        and wc(self.major_version, service.major_version, W_MAJOR)
+        and (self.instance_id == W_INSTANCE or self.instance_id == service.instance_id)
+        and (self.major_version == W_MAJOR or self.major_version == service.major_version)
     )
     if not accepts:
         return None
